@@ -19,7 +19,7 @@ EXPLANATION = (
     "[0] on 0x700+id exactly under `_state == 0`; R4 the state setter reaches send_command on every normal path "
     "and rejects names outside NMT_COMMANDS before it; R5 heartbeat decoding uses only the 0x7F-masked byte, "
     "0 maps to PRE-OPERATIONAL (127); R6 condition-variable protocol of on_heartbeat / wait_for_heartbeat / "
-    "wait_for_bootup and NmtError on the silent path; R9 every state change of the slave reaches its heartbeat payload and the heartbeat starts on the boot-up transition (shared with C17.R3): the state a master reports is the one the heartbeat carries; R8 structural assumptions shared by all properties: no class-level mutable object is mutated in place by instances, no method re-runs the constructor, logging statements cannot raise (typed eager formatting, divisions), no mutable default argument is kept or mutated, no new truth-value test of a None-able number."
+    "wait_for_bootup and NmtError on the silent path; R9 every state change of the slave reaches its heartbeat payload and the heartbeat starts on the boot-up transition (shared with C17.R3): the state a master reports is the one the heartbeat carries; R8 structural assumptions shared by all properties: no class-level mutable object is mutated in place by instances, no method re-runs the constructor, logging statements cannot raise (typed eager formatting, divisions), no mutable default argument is kept or mutated, no new truth-value test of a None-able number, a look-up memory the pinned tree does not have is keyed by all its inputs (arithmetic keys folded over a grid of addresses) and, on the serving side, emptied somewhere."
     ' R6 also: only on_heartbeat notifies state_update while wait_for_heartbeat waits once.'
     ' R5 also: the boot-up test does not look at the raw frame byte.'
 )
